@@ -326,7 +326,8 @@ def engine_a_check(pid, tier, jobs, required_reach, assumptions, level_note, out
         # one digest per (group,input) across schedules
         for key, digests in (r.get("observed") or {}).items():
             if len(digests) > 1:
-                vio.append({"harness": h, "label": "one-result-per-input", "class": "", "kind": "observe", "detail": "group %s has %d different results across schedules: %s" % (key, len(digests), list(digests)[:4]), "witness": None, "input_key": key})
+                vio.append({"harness": h, "label": "one-result-per-input", "class": "", "kind": "observe", "detail": "group %s has %d different results across schedules: %s" % (key, len(digests), [d[:80] for d in list(digests)[:4]]), "witness": None, "input_key": key,
+                            "_obs_witnesses": (r.get("observed_witness") or {}).get(key) or []})
     # cross-solver diff: a sample of the assertion queries (full SMT-LIB scripts) is re-decided by z3 4.8.12 and cvc5 1.0
     diff = {"queries": 0, "agree": 0, "disagree": [], "other_unknown": 0}
     for r in res["results"]:
@@ -398,9 +399,24 @@ def engine_a_check(pid, tier, jobs, required_reach, assumptions, level_note, out
             k = match_known(known, pid, h, lab, cls, v.get("input_key"))
             if k:
                 out.known.append(k["what"])
-            else:
-                path = save_replay(pid, {"harness": h, "inputs": [], "note": v["detail"]}, v)
+                continue
+            # native confirmation: the same inputs built repeatedly (real map iteration orders) / the recorded
+            # call histories must give at least two different digests natively
+            ws = v.pop("_obs_witnesses", [])
+            group = v["input_key"].split("|")[0]
+            digests = set()
+            if ws:
+                evs = native_replay(pkg_of[h], ws, repeat=1 if group.startswith("global:") else 400)
+                for ev in evs:
+                    for e in ev or []:
+                        if e["kind"] == "observe" and e["label"] == group:
+                            digests.add(e["detail"])
+            if len(digests) > 1:
+                validated += 1
+                path = save_replay(pid, dict(ws[0], note=v["detail"]), {"label": lab, "native_digests": [d[:200] for d in list(digests)[:4]]})
                 out.violations.append((what, path))
+            else:
+                out.unconfirmed.append(what + " (native runs gave %d different result(s): not confirmed)" % len(digests))
             continue
         if id(v) not in confirmed:
             if v.get("_skipped"):
